@@ -24,6 +24,11 @@ var ErrInjected = errors.New("refstore: injected storage fault")
 // ErrInjectedEOF is an injected fault that is ErrInjected and also is io.EOF (errors.Is holds
 // for both): a storage may well report "unexpected end of stream" with io.EOF in its chain, and
 // a library must not take that for the end of the data.
+// RunawayAfterFault: calls answered with the injected error before the store ends the run by panicking
+const RunawayAfterFault = 5000
+
+var ErrRunaway = errors.New("refstore: storage polled 5000 times after a permanent fault")
+
 var ErrInjectedEOF error = eofFault{}
 
 type eofFault struct{}
@@ -226,6 +231,12 @@ func (s *Store) enter(op Op) (int, error) {
 	s.calls++
 	if s.Faulted {
 		s.AfterFault++
+		if !s.Transient && s.AfterFault > RunawayAfterFault {
+			// a caller that goes on polling a storage that fails every call (and ignores the
+			// errors) never ends: one call after the fault is already the monitors' finding,
+			// this only ends the run
+			panic(ErrRunaway)
+		}
 		if s.Transient {
 			return idx, nil // the fault was a single failing call; later calls are served (and counted)
 		}
